@@ -1182,8 +1182,11 @@ def add_invariant_checks(cls: ClassT) -> None:
 
     # As we continuously decorate the class with invariants, we never definitely know
     # whether this decoration is the last one. Hence, we can only retrieve the list
-    # of invariants decorated *thus far*. As we only add one invariant at the time,
-    # we only need to check for the last invariant.
+    # of invariants decorated *thus far*.
+    #
+    # We need to consider the events of *all* the invariants, and not only of the last one:
+    # this function is also called by the meta-class for a derived class, whose new functions
+    # need to be wrapped according to all the invariants inherited from the bases.
     assert cls.__invariants__ is not None, (  # type: ignore
         "Expected to set ``__invariants__`` in the invariant decorator before "
         "the call to {}".format(add_invariant_checks.__name__)
@@ -1193,11 +1196,13 @@ def add_invariant_checks(cls: ClassT) -> None:
         "to push the latest invariant in the invariant decorator before the call to "
         "{}".format(add_invariant_checks.__name__)
     )
-    last_invariant = cls.__invariants__[-1]  # type: ignore
-    assert isinstance(last_invariant, icontract._types.Invariant)
+    check_on = InvariantCheckEvent(0)
+    for an_invariant in cls.__invariants__:  # type: ignore
+        assert isinstance(an_invariant, icontract._types.Invariant)
+        check_on |= an_invariant.check_on
 
     # Filter out entries in the directory which are certainly not candidates for decoration
-    # regarding the ``last_invariant``. Note that the functions which are already decorated
+    # regarding the ``check_on``. Note that the functions which are already decorated
     # will not be re-decorated, so that this loop runs in O( dir(cls) * len(invariants) ),
     # but with a negligible constant.
     for name in dir(cls):
@@ -1222,13 +1227,13 @@ def add_invariant_checks(cls: ClassT) -> None:
 
         if (
             name != "__setattr__"
-            and InvariantCheckEvent.CALL not in last_invariant.check_on
+            and InvariantCheckEvent.CALL not in check_on
         ):
             continue
 
         if (
             name == "__setattr__"
-            and InvariantCheckEvent.SETATTR not in last_invariant.check_on
+            and InvariantCheckEvent.SETATTR not in check_on
         ):
             continue
 
